@@ -65,7 +65,8 @@ WXe == /\ Is("xe") /\ Step
           ELSE ph' = [ph EXCEPT ![Ev.i] = "ended"]
        /\ rs' = [rs EXCEPT ![Ev.i].owed = (dv[Ev.i].res /\ Ev.out \in {"ok", "fail"}) \/ (Ev.out = "eager" /\ @)]
        /\ ex' = [ex EXCEPT ![Ev.i].okc = IF Ev.out = "ok" /\ ~dv[Ev.i].rec THEN @ + 1 ELSE @]
-       /\ (Has("once") => ex'[Ev.i].okc <= 1)                     \* C14: a successful job is executed exactly once
+       \* (a second successful execution is legitimate only after the message was returned by a shutdown
+       \*  reject -- that redelivery discipline is the broker contract's; here: never two bodies at once, see WBs)
        /\ UNCHANGED <<vars, calls, chk, devs, dv, nact, cw, running, started, wc>>
 
 (* C13: a result-bucket write for message i.  Only when results are enabled for i; it must carry  *)
